@@ -123,3 +123,34 @@ Theorem C03_offsets_step_sub : forall w m lo hi st n x st',
     spec_offset m (a_val (r_reloc (e_r st'))) = spec_offset m (a_val (r_reloc (e_r st))) + Z.of_nat (length bs) /\
     e_baddr st' = e_baddr st.
 Proof. exact emit_step_synced_sub. Qed.
+
+(** Programs that declare their own bus with [.map].  [ds] are the declarations as the model's
+    [bus_map] receives them, [ranges_of ds] the bank ranges the run-time oracle [SUserOffsets] is
+    given (main range, then mirror range, per declaration, in order).  With pairwise distinct
+    identifiers (the derived "<id>_mirror" names included — a reused identifier re-parameterises the
+    banks of the earlier declaration, in the model as in mapping.py) the bus answers every bank by
+    the LAST declared range holding it, an address the oracle assigns an offset to has exactly that
+    file offset on the bus, and the model's own emission trace satisfies the oracle as long as each
+    run stays inside one declared range ([user_run]): the oracle cannot raise a false alarm on
+    observations that agree with the model. *)
+From A816 Require Import Proofs.UserBusOracle Proofs.UserBusOracleTrace.
+Theorem C03_user_bus_lookup : forall ds b,
+  NoDup (ids_of ds) -> bus_of ds = Ok b ->
+  forall bank, bus_mapping_for_bank b bank = look (ranges_of ds) bank.
+Proof. exact bus_of_lookup. Qed.
+Theorem C03_user_offset_physical : forall ds b a p,
+  NoDup (ids_of ds) -> bus_of ds = Ok b ->
+  user_offset (ranges_of ds) a = Some p -> addr_physical b a = Ok (Some p).
+Proof. exact user_offset_physical. Qed.
+Theorem C03_user_offsets_oracle : forall w ds b r e fi ns o,
+  NoDup (ids_of ds) -> bus_of ds = Ok b -> get_bus w r = Ok b ->
+  assemble_nodes w r (NCodePos e fi :: ns) = Ok o ->
+  exists r1 addrs tr,
+    resolve_labels w r (NCodePos e fi :: ns) = Ok (r1, addrs) /\
+    model_trace w (emit_start r1) (NCodePos e fi :: ns) addrs = Ok (tr, r_pc (o_final o)) /\
+    (user_run (ranges_of ds) tr false = true -> user_offsets_ok (ranges_of ds) tr false = true).
+Proof. exact assemble_user_offsets_ok. Qed.
+
+Print Assumptions C03_user_bus_lookup.
+Print Assumptions C03_user_offset_physical.
+Print Assumptions C03_user_offsets_oracle.
